@@ -250,6 +250,33 @@ def hier_requests(rng, n):
 
 SCENARIOS += arity_scenarios()
 SCENARIOS.append(field_value_scenario())
+
+
+# hierarchies of every DEPTH whose classes all have ONE NAME: a chain built by a loop through a function (each class is `Link`, derived from
+# the class the function was given), 600 long; instances at depths around the widths a depth counter could have answer derives() for
+# near and far ancestors, for the class one step below them and for Object; methods and one-step super calls reach the right level
+def deep_chain_scenario():
+    top = 600
+    marks = [1, 2, 3, 127, 128, 129, 254, 255, 256, 257, 258, 300, 511, 512, 513, 599, 600]
+    src = ('#[constructor(new)] class Base { fn who(self) { return "root"; } fn level(self) { return 0; } }\n'
+           'fn grow(Parent, i) { #[constructor(new), derive(Parent)] class Link { fn level(self) { return i; } fn up(self) { return super.level(); } } return Link; }\n'
+           'var chain = [Base]; var c = Base;\nfor i in 1..%d { c = grow(c, i); chain.push(c); }\n'
+           'for t in [%s] {\n  var n = t[0]; var x = chain[n].new();\n'
+           '  print([n, x.level(), x.up(), x.who(), x.derives(Base), x.derives(chain[n]), x.derives(chain[n - 1]), x.derives(chain[1]), x.derives(chain[t[1]]),\n'
+           '         n < %d && x.derives(chain[t[2]]), x.derives(Object), type(x) == chain[n], type(x) == chain[n - 1]]);\n}\n'
+           'var Old = Base;\n#[constructor(new), derive(Old)] class Base { fn who(self) { return "second " + super.who(); } }\n'
+           'var b = Base.new(); print([b.who(), b.level(), b.derives(Old), b.derives(Base), Old.new().derives(Base)]);\n'
+           % (top + 1, ", ".join("[%d, %d, %d]" % (m, (m + 1) // 2, min(m + 1, top)) for m in marks), top))
+    exp = []
+    for n in marks:
+        below = "false"      # the class one step further down is not an ancestor (for n = top the index stays n and the test is short-circuited)
+        exp.append("[%d, %d, %d, root, true, true, true, true, true, %s, true, true, false]" % (n, n, n - 1, below))
+    exp.append("[second root, 0, true, true, false]")
+    return ("deep-chain-of-classes-with-one-name", src, exp)
+
+
+SCENARIOS.append(deep_chain_scenario())
+
 # `Self` inside lambdas and functions NESTED in a static method (depth 1 and 2, called at once or later) is the class the method was invoked
 # through - the class itself, a subclass, an instance of a sub-subclass, a bound static taken from an instance - also after the class names
 # have been rebound, and for a class declared in a block
